@@ -525,8 +525,8 @@ func genC10(r *Rand, tier string, i int) *h.Scenario {
 		if r.Bool(0.4) {
 			bs.Pre = append(bs.Pre, h.DecSpec{Kind: h.DecProbe, Ewma: r.Bool(0.5), Listener: r.Bool(0.3), Text: 2, Vary: 1, C: syncFlagSets[r.Intn(4)]})
 		}
-		if r.Bool(0.3) {
-			bs.App = append(bs.App, h.DecSpec{Kind: []int{h.DecElapsed, h.DecAvgSpeed, h.DecAvgETA, h.DecEwmaSpeed, h.DecEwmaETA, h.DecPercentage, h.DecCounters}[r.Intn(7)], Fmt: "", Style: r.Intn(4)})
+		if r.Bool(0.45) {
+			bs.App = append(bs.App, h.DecSpec{Kind: []int{h.DecElapsed, h.DecAvgSpeed, h.DecAvgETA, h.DecEwmaSpeed, h.DecEwmaETA, h.DecPercentage, h.DecCounters, h.DecAvgSpeed, h.DecAvgETA}[r.Intn(9)], Fmt: "", Style: r.Intn(4)})
 		}
 		sc.Bars = append(sc.Bars, bs)
 		sc.Initial = append(sc.Initial, b)
@@ -542,7 +542,14 @@ func genC10(r *Rand, tier string, i int) *h.Scenario {
 		var ops []h.Op
 		for k, n := 0, r.Range(2, maxOps); k < n; k++ {
 			b := r.Intn(nb)
-			switch r.Weighted(6, 2, 5, 1, 1, 1, 3) {
+			switch r.Weighted(6, 2, 5, 1, 1, 1, 3, 2) {
+			case 7:
+				// walking the decorators / moving the averages' start time while the bar is rendered
+				if r.Bool(0.3) {
+					ops = append(ops, h.Op{K: h.OpTraverse, Bar: b})
+				} else {
+					ops = append(ops, h.Op{K: h.OpAvgAdjust, Bar: b, N: int64(r.Range(1, 1000))})
+				}
 			case 6:
 				// absolute sets with unique values: a torn read-modify-write shows up as a value nobody set
 				uniq += 1000003
@@ -616,6 +623,15 @@ func judgeC10(hi *Hist) []*Violation {
 		return nil
 	}
 	var out []*Violation
+	// DecoratorAverageAdjust / TraverseDecorators are bar operations too: atomic with respect to a render
+	for i := range hi.Log {
+		if e := &hi.Log[i]; e.Kind == h.EvAvgAdj {
+			note("c10_adjust_events")
+			if e.S == "overlap" {
+				return []*Violation{viol("C10", "adjust-not-atomic", "bar %d: decorator %d/%d was asked to render while its AverageAdjust (called through Bar.DecoratorAverageAdjust) was half done: the adjustment is not atomic with respect to a render cycle", e.ID, e.A, e.B)}
+			}
+		}
+	}
 	for b := range hi.Sc.Bars {
 		if hi.Added[b] == nil {
 			continue
